@@ -34,6 +34,13 @@ func (e *Enc) calleeName(c *ssa.CallCommon) (name string, kind string, fn *ssa.F
 	if n, ok := c.Value.Type().(*types.Named); ok {
 		return n.Obj().Name(), "functype", nil
 	}
+	// a call through a parameter or captured variable of unnamed function type is named after it
+	switch v := c.Value.(type) {
+	case *ssa.Parameter:
+		return "param." + v.Name(), "dynamic", nil
+	case *ssa.FreeVar:
+		return "param." + v.Name(), "dynamic", nil
+	}
 	return "func-value", "dynamic", nil
 }
 
@@ -78,10 +85,98 @@ func (e *Enc) assignKeys(fc *FuncContract, item string) []string {
 // ---------- calls ----------
 
 func (e *Enc) encodeCall(c *ssa.CallCommon, instr ssa.Instruction, pos token.Pos) []Val {
-	name, kind, fn := e.calleeName(c)
+	name, kind, _ := e.calleeName(c)
 	if kind == "builtin" {
 		return e.encodeBuiltin(c, instr, pos)
 	}
+	res := e.encodeCall1(c, instr, pos)
+	e.noteCall(name, res)
+	return res
+}
+
+// noteCall records the first result of the latest call per callee (lastresult) and, for callees
+// that some contract counts, the number of calls made by this activation (calls).
+func (e *Enc) noteCall(name string, results []Val) {
+	if len(results) > 0 && results[0].T.S != "" && results[0].Tuple == nil {
+		k := "last|" + name + "|" + string(results[0].T.Sort)
+		e.cur.heap[k] = results[0].T
+		if _, ok := e.heap0[k]; !ok {
+			e.heap0[k] = e.fresh("last0", results[0].T.Sort)
+		}
+	}
+	if e.p.Contracts.Counted[name] {
+		ck := "cnt|" + name
+		if _, ok := e.heap0[ck]; !ok {
+			e.heap0[ck] = IntLit(0)
+		}
+		e.cur.heap[ck] = e.define("cnt", Add(e.heapGet(e.cur, ck), IntLit(1)))
+	}
+}
+
+// lastSortFor: sort of the first result of callee name, if this function calls it.
+func (e *Enc) lastSortFor(name string) (Sort, bool) {
+	for _, b := range e.fn.Blocks {
+		for _, in := range b.Instrs {
+			ci, ok := in.(ssa.CallInstruction)
+			if !ok {
+				continue
+			}
+			n, kind, _ := e.calleeName(ci.Common())
+			if kind == "builtin" || n != name {
+				continue
+			}
+			res := ci.Common().Signature().Results()
+			if res.Len() == 0 {
+				return "", false
+			}
+			return e.sortOf(res.At(0).Type()), true
+		}
+	}
+	return "", false
+}
+
+// loopCallNames: callees called in the loop, directly or through callees that may be inlined.
+func (e *Enc) loopCallNames(li *loopInfo) map[string]bool {
+	out := map[string]bool{}
+	var visitFn func(fn *ssa.Function, depth int)
+	visitCall := func(c *ssa.CallCommon, depth int) {
+		name, kind, fn := e.calleeName(c)
+		if kind == "builtin" {
+			return
+		}
+		out[name] = true
+		if kind == "func" && fn != nil && depth < 5 {
+			if fc := e.p.Contracts.Funcs[name]; fc == nil || fc.Flags["inline"] {
+				visitFn(fn, depth+1)
+			}
+		}
+	}
+	seen := map[*ssa.Function]bool{}
+	visitFn = func(fn *ssa.Function, depth int) {
+		if seen[fn] {
+			return
+		}
+		seen[fn] = true
+		for _, b := range fn.Blocks {
+			for _, in := range b.Instrs {
+				if ci, ok := in.(ssa.CallInstruction); ok {
+					visitCall(ci.Common(), depth)
+				}
+			}
+		}
+	}
+	for b := range li.blocks {
+		for _, in := range b.Instrs {
+			if ci, ok := in.(ssa.CallInstruction); ok {
+				visitCall(ci.Common(), 0)
+			}
+		}
+	}
+	return out
+}
+
+func (e *Enc) encodeCall1(c *ssa.CallCommon, instr ssa.Instruction, pos token.Pos) []Val {
+	name, kind, fn := e.calleeName(c)
 	// arguments (receiver first for invoke)
 	var args []Val
 	var argTypes []types.Type
@@ -346,6 +441,9 @@ func (e *Enc) applyCall(name, kind string, fn *ssa.Function, fc *FuncContract, c
 	}
 	if fc != nil {
 		for _, cl := range fc.Ens {
+			if strings.Contains(cl.Src, "calls(\"") {
+				continue // counts the callee's own calls: says nothing to the caller
+			}
 			t, err := post.Eval(cl.Expr)
 			if err != nil {
 				e.contractError(name, cl, err, pos)
@@ -365,12 +463,6 @@ func (e *Enc) applyCall(name, kind string, fn *ssa.Function, fc *FuncContract, c
 	e.reassumeInvariants()
 	for _, r := range results {
 		e.assumeResultInv(r.T, r.Typ, nowAtCall)
-	}
-	if len(results) > 0 && results[0].T.S != "" {
-		e.cur.heap["last|"+name+"|"+string(results[0].T.Sort)] = results[0].T
-		if _, ok := e.heap0["last|"+name+"|"+string(results[0].T.Sort)]; !ok {
-			e.heap0["last|"+name+"|"+string(results[0].T.Sort)] = e.fresh("last0", results[0].T.Sort)
-		}
 	}
 	// a callee flagged returns-fresh hands back a new object: until it escapes it behaves like a local allocation
 	if fc != nil && fc.Flags["returns-fresh"] && len(results) > 0 {
@@ -423,6 +515,9 @@ func (e *Enc) havocForCall(mod KeySet, at ssa.Instruction, args []Val) {
 		parts := strings.Split(k, "|")
 		e.monotoneAssume(k, old, nw)
 		e.initOnlyAssume(k, old, nw, nowBefore)
+		if parts[0] == "E" {
+			e.privateSliceFrame(k, old, nw, nil)
+		}
 		for _, a := range unesc {
 			switch parts[0] {
 			case "F":
@@ -705,8 +800,9 @@ func (e *Enc) encodeAppend(c *ssa.CallCommon, instr ssa.Instruction, pos token.P
 	// caller-side obligations on appended elements:  at append[T] requires P(elem)
 	if e.fc != nil && srcSlice.S != "" {
 		want := "append[" + e.p.relTypeString(st.Elem()) + "]"
+		ord := e.appendOrdinal(st.Elem(), instr)
 		for i, at := range e.fc.At {
-			if at.Callee != want {
+			if at.Callee != want && at.Callee != fmt.Sprintf("%s#%d", want, ord) {
 				continue
 			}
 			env := e.fnEnv(e.cur)
@@ -746,11 +842,12 @@ func (e *Enc) encodeAppend(c *ssa.CallCommon, instr ssa.Instruction, pos token.P
 	q := func(body string) Term { return mk(SBool, body) }
 	arrR, offR := SliceArr(r).S, SliceOff(r).S
 	e.assert(q(fmt.Sprintf("(forall ((qa Int)) (! (=> (and (not (= qa %s))) (= (select %s qa) (select %s qa))) :pattern ((select %s qa))))", arrR, newE.S, oldE.S, newE.S)))
-	e.assert(q(fmt.Sprintf("(forall ((qi Int)) (! (=> (and (>= qi 0) (< qi %s)) (= (select (select %s %s) (+ %s qi)) (select (select %s %s) (+ %s qi)))) :pattern ((select (select %s %s) (+ %s qi)))))",
-		SliceLen(s).S, newE.S, arrR, offR, oldE.S, SliceArr(s).S, SliceOff(s).S, newE.S, arrR, offR)))
+	// (absolute positions in the result's backing array: triggers without arithmetic)
+	e.assert(q(fmt.Sprintf("(forall ((qj Int)) (! (=> (and (>= qj %s) (< qj (+ %s %s))) (= (select (select %s %s) qj) (select (select %s %s) (+ %s (- qj %s))))) :pattern ((select (select %s %s) qj))))",
+		offR, offR, SliceLen(s).S, newE.S, arrR, oldE.S, SliceArr(s).S, SliceOff(s).S, offR, newE.S, arrR)))
 	if srcSlice.S != "" {
-		e.assert(q(fmt.Sprintf("(forall ((qi Int)) (! (=> (and (>= qi 0) (< qi %s)) (= (select (select %s %s) (+ %s %s qi)) (select (select %s %s) (+ %s qi)))) :pattern ((select (select %s %s) (+ %s %s qi)))))",
-			SliceLen(srcSlice).S, newE.S, arrR, offR, SliceLen(s).S, oldE.S, SliceArr(srcSlice).S, SliceOff(srcSlice).S, newE.S, arrR, offR, SliceLen(s).S)))
+		e.assert(q(fmt.Sprintf("(forall ((qj Int)) (! (=> (and (>= qj (+ %s %s)) (< qj (+ %s %s %s))) (= (select (select %s %s) qj) (select (select %s %s) (+ %s (- qj (+ %s %s)))))) :pattern ((select (select %s %s) qj))))",
+			offR, SliceLen(s).S, offR, SliceLen(s).S, SliceLen(srcSlice).S, newE.S, arrR, oldE.S, SliceArr(srcSlice).S, SliceOff(srcSlice).S, offR, SliceLen(s).S, newE.S, arrR)))
 		// in-place: elements of the same array outside the written window are unchanged
 	}
 	e.assert(q(fmt.Sprintf("(=> %s (forall ((qi Int)) (! (=> (or (< qi (+ %s %s)) (>= qi (+ %s %s))) (= (select (select %s %s) qi) (select (select %s %s) qi))) :pattern ((select (select %s %s) qi)))))",
@@ -910,11 +1007,76 @@ func (e *Enc) loopHeader(b *ssa.BasicBlock, li *loopInfo, preds []*ssa.BasicBloc
 		e.initOnlyAssume(k, old, nw, nowBeforeLoop)
 		// objects of this function that stay private throughout the loop and are not written by it keep their fields
 		parts := strings.Split(k, "|")
+		if parts[0] == "E" {
+			e.privateSliceFrame(k, old, nw, func(f *sliceFamily) bool {
+				for in := range f.writes {
+					if li.blocks[in.Block()] {
+						return true
+					}
+				}
+				for in := range f.esc {
+					if li.blocks[in.Block()] {
+						return true
+					}
+				}
+				return false
+			})
+		}
 		if parts[0] == "F" {
 			for _, a := range private {
 				if _, isStruct := a.typ.Underlying().(*types.Struct); isStruct && e.p.structKeyName(a.typ) == parts[1] && !e.loopStoresField(li, a.val, parts[2]) {
 					e.assert(Eq(Select(nw, a.ref), Select(old, a.ref)))
 				}
+			}
+		}
+	}
+	// a private slice handed out somewhere in the loop counts as handed out from the head on
+	for _, f := range e.families {
+		for in := range f.esc {
+			if li.blocks[in.Block()] {
+				e.heap0Bool(f.key())
+				e.cur.heap[f.key()] = True
+				break
+			}
+		}
+	}
+	// results and counts of calls made inside the loop are unknown at its head
+	{
+		called := e.loopCallNames(li)
+		var ks []string
+		seenK := map[string]bool{}
+		for k := range e.cur.heap {
+			if !seenK[k] {
+				seenK[k] = true
+				ks = append(ks, k)
+			}
+		}
+		for k := range e.heap0 {
+			if !seenK[k] {
+				seenK[k] = true
+				ks = append(ks, k)
+			}
+		}
+		for n := range called {
+			if e.p.Contracts.Counted[n] && !seenK["cnt|"+n] {
+				e.heap0["cnt|"+n] = IntLit(0)
+				ks = append(ks, "cnt|"+n)
+			}
+		}
+		sort.Strings(ks)
+		for _, k := range ks {
+			parts := strings.Split(k, "|")
+			if len(parts) < 2 || !called[parts[1]] {
+				continue
+			}
+			switch parts[0] {
+			case "last":
+				e.cur.heap[k] = e.fresh("last_loop", e.heapGet(e.cur, k).Sort)
+			case "cnt":
+				old := e.heapGet(e.cur, k)
+				c := e.fresh("cnt_loop", SInt)
+				e.assert(Ge(c, old))
+				e.cur.heap[k] = c
 			}
 		}
 	}
@@ -1983,6 +2145,40 @@ func (e *Enc) terminationObligations() {
 }
 
 // callOrdinal: index of this call among the calls of the same callee in the function, in source order.
+// appendOrdinal: position (in source order) of this append among the function's appends to slices of elem.
+func (e *Enc) appendOrdinal(elem types.Type, at ssa.Instruction) int {
+	if at == nil {
+		return -1
+	}
+	type site struct {
+		pos token.Pos
+		in  ssa.Instruction
+	}
+	var sites []site
+	for _, b := range e.fn.Blocks {
+		for _, in := range b.Instrs {
+			ci, ok := in.(ssa.CallInstruction)
+			if !ok {
+				continue
+			}
+			bi, ok := ci.Common().Value.(*ssa.Builtin)
+			if !ok || bi.Name() != "append" || len(ci.Common().Args) == 0 {
+				continue
+			}
+			if sl, ok := ci.Common().Args[0].Type().Underlying().(*types.Slice); ok && types.Identical(sl.Elem(), elem) {
+				sites = append(sites, site{in.Pos(), in})
+			}
+		}
+	}
+	sort.SliceStable(sites, func(i, j int) bool { return sites[i].pos < sites[j].pos })
+	for i, s := range sites {
+		if s.in == at {
+			return i
+		}
+	}
+	return -1
+}
+
 func (e *Enc) callOrdinal(name string, at ssa.Instruction) int {
 	if at == nil {
 		return -1
